@@ -18,7 +18,7 @@ KINDS = ("post_fifo", "post_fifo", "post_fifo", "post_lifo", "post_lifo", "next_
          "next_rtc", "complete_circuit", "complete_circuit", "defer", "recall", "query", "clear_spy", "clear_trace")
 ACTION_KINDS = ("post_fifo", "post_fifo", "post_lifo", "post_lifo", "defer", "defer", "defer", "defer_e", "defer_e",
                 "recall", "recall", "recall", "scribble", "scribble",
-                "is_in", "is_in", "current_state", "current_state",      # handlers that query the chart
+                "is_in", "is_in", "is_in", "current_state", "current_state", "current_state",   # handlers that query the chart
                 "clear_spy", "clear_trace")                              # handlers that empty the logs mid-step
 
 
